@@ -86,6 +86,16 @@ def varbind_specs():
     for tag in (B.OCTETS, B.OPAQUE, B.ODESC):
         for c in (b"", b"\xff\xfe\x00", b"a" * 200, b"\x00" * 1200):
             add("str-%02x-%d" % (tag, len(c)), [_vb(SUB, B.tlv(tag, c))])
+    # string contents that are BER themselves (what Opaque is for; net-snmp's 9f 78 float / 9f 79 double / 9f 7a int64 /
+    # 9f 7b uint64 wrappers, nested Opaque, SEQUENCE): complete, and cut short at every length
+    for head, n in ((b"\x9f\x78", 4), (b"\x9f\x79", 8), (b"\x9f\x7a", 8), (b"\x9f\x7b", 8), (b"\x44", 6), (b"\x30", 4), (b"\x02", 4),
+                    (b"\x9f\x78", 8), (b"\x9f\x79", 4)):
+        full = head + bytes([n]) + bytes(range(0x41, 0x41 + n))
+        for cut in range(0, len(full) + 1):
+            for tag in (B.OPAQUE, B.OCTETS):
+                add("wrapped-%02x-%s-%d" % (tag, head.hex(), cut), [_vb(SUB, B.tlv(tag, full[:cut]))])
+        add("wrapped-long-%s" % head.hex(), [_vb(SUB, B.tlv(B.OPAQUE, full + b"\x00" * 5))])
+        add("wrapped-lie-%s" % head.hex(), [_vb(SUB, B.tlv(B.OPAQUE, head + bytes([n + 3]) + bytes(n)))])
     # unknown / constructed / high tags as values
     for tag in (0x00, 0x03, 0x08, 0x0a, 0x0c, 0x0d, 0x10, 0x13, 0x1e, 0x24, 0x29, 0x30, 0x31, 0x45, 0x48, 0x5e, 0x60, 0x7e, 0xc0, 0xe0, 0xfe):
         add("tag-%02x" % tag, [_vb(SUB, B.tlv(tag, b"\x01"))])
